@@ -79,6 +79,10 @@ def ra_setup(ctx):
     kw_new = ctx.choose(3, "n-new-kwargs")
     kw_clash_mask = ctx.choose(2 ** n, "clashing-kwargs") if n else 0
     kwargs = [P(f"k{i}", "KEYWORD_ONLY") for i in range(kw_new)] + [P(f"p{i}", "KEYWORD_ONLY") for i in range(n) if kw_clash_mask >> i & 1]
+    # a parameter reached through **kwargs may be *named like* the catch-all variable itself (def f(**options): g(**options) with g(options=7)): the variable's
+    # name is not a parameter of f, so that parameter is offered like any other
+    if k_idx >= 0 and ctx.choose(2, "a-resolved-parameter-is-named-like-the-**-variable") == 1:
+        kwargs.append(P("kwargs", "KEYWORD_ONLY"))
     env = {"params": list(params), "args": list(args), "kwargs": list(kwargs)}
     consts = {"kinds.VAR_POSITIONAL": "VAR_POSITIONAL", "kinds.VAR_KEYWORD": "VAR_KEYWORD"}
     inline = {"get_arg_kind_index": MOD + ":get_arg_kind_index"}
@@ -479,7 +483,9 @@ def gpak_setup(ctx):
     for i in range(n_uses):
         kind = USES[ctx.choose(len(USES), f"use{i}")]
         hard = ctx.choose(2, f"use{i}-hard-codes-h") == 1 if kind in ("super-call", "call-of-a-known-component") else False
-        node = Rec("Call" if "assign" not in kind and "attr" not in kind else "Assign", attrs={"kind": kind, "hard": hard, "i": i, "func": Rec("Attribute", attrs={"attr": "__init__"})})
+        # the callee may have no parameter but the hard-coded one: the use then contributes nothing, yet the name is still hard-coded (another use must not offer it)
+        only_h = ctx.choose(2, f"use{i}-callee-accepts-only-h") == 1 if (kind == "call-of-a-known-component" and hard) else False
+        node = Rec("Call" if "assign" not in kind and "attr" not in kind else "Assign", attrs={"kind": kind, "hard": hard, "only_h": only_h, "i": i, "func": Rec("Attribute", attrs={"attr": "__init__"})})
         uses.append((kind, hard, node, Rec(f"source{i}")))
     for n in ("Call", "Assign", "AnnAssign"):
         ctx.classes.add(n, [])
@@ -530,7 +536,7 @@ def gpak_setup(ctx):
              "ast_is_super_call": lambda c, a, k: a[0].attrs["kind"] in ("super-call", "unsupported-super-call"),
              "ast_is_supported_super_call": lambda c, a, k: a[0].attrs["kind"] == "super-call",
              "get_mro_parameters": lambda c, a, k: (c.event("mro", a[0], a[1], a[2]), params_for(("mro", len(produced)), ["m1", "h"]))[1],
-             "get_signature_parameters": lambda c, a, k: (c.event("signature", list(a), k.get("logger")), params_for(("sig", len(produced)), ["c1", "h"]))[1],
+             "get_signature_parameters": lambda c, a, k: (c.event("signature", list(a), k.get("logger")), params_for(("sig", len(produced)), ["h"] if (isinstance(a[0], tuple) and uses[a[0][1]][2].attrs["only_h"]) else ["c1", "h"]))[1],
              "remove_given_parameters": remove_given, "ast_is_attr_assign": lambda c, a, k: "stored" if a[0].attrs["kind"] == "self.attr=kwargs" else False,
              "group_parameters": group, "split_args_and_kwargs": lambda c, a, k: ("split", list(a[0]))}
     consts = {"ast": Rec("module ast", attrs={"Call": ClassRef("Call")}), "ast_assign_type": (ClassRef("Assign"), ClassRef("AnnAssign")), "get_signature_parameters": gsp}
@@ -555,7 +561,7 @@ def gpak_post(ctx, st, result):
         if kind == "super-call":
             names = ["m1", "h"] if d["has_parent"] else None   # outside a class a super() call is an ordinary call of an unknown callee
         elif kind == "call-of-a-known-component":
-            names = ["c1", "h"]
+            names = ["h"] if node.attrs["only_h"] else ["c1", "h"]
         elif kind == "self.attr=kwargs":
             if d["has_parent"]:
                 want.append(["a1", "a2"])
@@ -567,8 +573,9 @@ def gpak_post(ctx, st, result):
             if hard:
                 names = [n for n in names if n != "h"]
                 removed.add("h")
-            want.append(names)
-            origins.append(node)
+            if names:
+                want.append(names)
+                origins.append(node)
     got = [[p.attrs["name"] for p in lst] for lst in (d["grouped_in"][0] if d["grouped_in"] else [])]
     ctx.oblige("post", "every-use-contributes-what-it-accepts,in-the-order-of-the-uses:pop/get->that-name;forwarding-call->the-callee's-parameters(next definer in the MRO for super(), the denoted component otherwise)-minus-what-the-call-hard-codes;self.attr=kwargs->the-uses-of-the-attribute;forms-not-understood->nothing" + tag,
                len(d["grouped_in"]) == 1 and got == want, note=f"want {want}, got {got}")
